@@ -5,6 +5,7 @@ R12a comment gate; R12b math_mode switch (+ cross-table routing of math
 environments); R12c discard gate (+ the default of the discard flag and the
 table entries that rely on it)."""
 import ast
+from .. import symex
 from .. import core
 from ..core import (AnalysisError, short, unparse, iter_own, call_name, call_recv, kwarg,
                     is_self_attr, atomic_facts, parents, enclosing_stmt, const_value)
@@ -161,10 +162,15 @@ def run(ctx):
                    % short(v), construct='with-delimiters delims: ' + short(s))
     # fmt_equation_environment routes to the switch
     fe = m.func('fmt_equation_environment')
-    rets = [x for x in iter_own(fe) if isinstance(x, ast.Return)]
-    ok = len(rets) == 1 and isinstance(rets[0].value, ast.Call) and \
-        call_name(rets[0].value) == 'math_node_to_text' and \
-        [unparse(a) for a in rets[0].value.args] == [fe.args.args[0].arg]
+    try:
+        frc = [c for c in symex.Walker(want_returns=True).run(fe) if c.kind == 'return']
+    except symex.TooManyPaths:
+        frc = []
+    ok = bool(frc)
+    for c in frc:
+        v_ = symex.resolve(c.sub, c.env)
+        ok = ok and isinstance(v_, ast.Call) and call_name(v_) == 'math_node_to_text' and \
+            [unparse(a) for a in v_.args] == [fe.args.args[0].arg]
     ctx.decide('R12b', ok, m, fe, 'fmt_equation_environment -> math_node_to_text(envnode)',
                'fmt_equation_environment does not return l2tobj.math_node_to_text(<its node>)',
                construct='fmt_equation_environment')
@@ -207,39 +213,55 @@ def run(ctx):
             raise AnalysisError('anchor vanished: LatexNodes2Text.' + fname)
         # the "render children" returns: join of _groupnodecontents_to_text / nodelist_to_text(node.nodelist)
         found = 0
-        for r in [x for x in ast.walk(f) if isinstance(x, ast.Return) and x.value is not None]:
-            txt = unparse(r.value)
-            renders = ('_groupnodecontents_to_text' in txt or 'nodelist_to_text' in txt) and \
-                'apply_simplify_repl' not in txt
-            if not renders:
+        # per returning path (also of closures nested in the method), with locals expanded: a path
+        # whose result contains a rendering of the children has decided `<spec>.discard` false
+        scopes = [f] + [g for g in ast.walk(f) if isinstance(g, ast.FunctionDef) and g is not f]
+        seen_r = set()
+        for sc in scopes:
+            try:
+                rcs_ = [c for c in symex.Walker(want_returns=True).run(sc) if c.kind == 'return']
+            except symex.TooManyPaths:
+                ctx.unknown('R12c', m, sc, 'too many paths', construct=fname + ': ' + sc.name)
                 continue
-            found += 1
-            if fname == 'specials_node_to_text':
-                # SpecialsTextSpec has no discard flag by design; the guard is optional there
-                facts = atomic_facts(r)
-                ok = any((not pol) and isinstance(t, ast.Attribute) and t.attr == 'discard'
-                         for t, pol in facts)
-                ctx.decide('R12c', ok, m, r, 'children rendered only when not discarded',
-                           'specials arguments are rendered without testing the discard flag',
-                           construct=fname + ': ' + short(r, 70))
-                continue
-            facts = atomic_facts(r)
-            ok = any((not pol) and isinstance(t, ast.Attribute) and t.attr == 'discard'
-                     for t, pol in facts)
-            ctx.decide('R12c', ok, m, r, 'children rendered only on the not-discarded path',
-                       '%s renders the arguments/body on a path where the spec\'s discard flag was '
-                       'not tested false: discarded constructs contribute text' % fname,
-                       construct=fname + ': ' + short(r, 70))
+            for c in rcs_:
+                txt = unparse(symex.expand(c.sub, c.env, depth=5))
+                renders = ('_groupnodecontents_to_text' in txt or 'nodelist_to_text' in txt) and \
+                    'apply_simplify_repl' not in txt
+                if not renders:
+                    continue
+                found += 1
+                facts = symex.facts_of(c.conds, c.env)
+                ok = any((not pol) and t.endswith('.discard') for t, pol in facts)
+                if ok and id(c.node) in seen_r:
+                    continue
+                seen_r.add(id(c.node))
+                ctx.decide('R12c', ok, m, c.node, 'children rendered only on the not-discarded path',
+                           '%s renders the arguments/body on the path [%s], on which the spec\'s discard flag was '
+                           'not tested false: discarded constructs contribute text'
+                           % (fname, ' & '.join(c.cond_src())[-120:]),
+                           construct=fname + ': rendering of the children')
         if not found:
             ctx.unknown('R12c', m, f, 'no return rendering the children found', construct=fname)
-        # the discard branch returns the empty constant
-        for i in [x for x in ast.walk(f) if isinstance(x, ast.If)]:
-            if isinstance(i.test, ast.Attribute) and i.test.attr == 'discard':
-                ok = len(i.body) == 1 and isinstance(i.body[0], ast.Return) and \
-                    isinstance(i.body[0].value, ast.Constant) and i.body[0].value.value == ''
-                ctx.decide('R12c', ok, m, i, "discard -> ''",
-                           'the discard branch of %s does not return the empty string' % fname,
-                           construct=fname + ': discard branch')
+        # every returning path on which the discard flag was decided true returns the empty string
+        n_dis, bad_dis = 0, None
+        for sc in scopes:
+            try:
+                rcs_ = [c for c in symex.Walker(want_returns=True).run(sc) if c.kind == 'return']
+            except symex.TooManyPaths:
+                continue
+            for c in rcs_:
+                facts = symex.facts_of(c.conds, c.env)
+                if any(pol and t.endswith('.discard') for t, pol in facts):
+                    n_dis += 1
+                    v_ = c.sub
+                    if not (isinstance(v_, ast.Constant) and v_.value == '') and bad_dis is None:
+                        bad_dis = c
+        if n_dis or any(isinstance(x, ast.Attribute) and x.attr == 'discard' for x in ast.walk(f)):
+            ctx.decide('R12c', bad_dis is None and n_dis > 0, m, bad_dis.node if bad_dis else f,
+                       "discard -> '' on every path where the flag is set (%d path(s))" % n_dis,
+                       'the discard branch of %s does not return the empty string (it returns %s)'
+                       % (fname, short(bad_dis.sub, 50) if bad_dis else 'on no path'),
+                       construct=fname + ': discard branch')
     # default of MacroTextSpec.discard
     mts = m.methods('MacroTextSpec').get('__init__')
     if mts is None:
@@ -367,6 +389,47 @@ def run(ctx):
     from . import c14 as _c14
     cm_ = repo.mod(_c14.MODULE)
     _c14.merge_precedence(ctx, 'R12k', cm_, cm_.methods(_c14.CLASS)['extended_with'])
+
+    # ---- R12l: switches handed on under their own name
+    ctx.rule('R12l', 'where a parsing-state field is set from the like-named attribute of another object '
+                     '(sub_context(enable_comments=parser.enable_comments)), the two names agree: no switch is driven by '
+                     'another switch', 2)
+    psm_ = repo.mod('pylatexenc.latexnodes._parsingstate')
+    pfields_ = set()
+    for st_ in psm_.cls('ParsingState').body:
+        if isinstance(st_, ast.Assign) and isinstance(st_.targets[0], ast.Name) and st_.targets[0].id == '_fields' \
+                and isinstance(st_.value, (ast.Tuple, ast.List)):
+            pfields_ = {e_.value for e_ in st_.value.elts if isinstance(e_, ast.Constant)}
+    if not pfields_:
+        ctx.unknown('R12l', psm_, None, 'ParsingState._fields not found', construct='field names')
+    for mod_ in sorted(repo.modules.values(), key=lambda m_: m_.name):
+        if not mod_.name.startswith('pylatexenc.'):
+            continue
+        for c_ in ast.walk(mod_.tree):
+            if isinstance(c_, ast.Call) and call_name(c_) in ('sub_context', 'ParsingState'):
+                for k_ in c_.keywords:
+                    if k_.arg in pfields_ and isinstance(k_.value, ast.Attribute) and k_.value.attr in pfields_:
+                        ctx.decide('R12l', k_.arg == k_.value.attr, mod_, c_, '%s=%s' % (k_.arg, unparse(k_.value)),
+                                   'the parsing-state field %s is set from %s, a different switch: with groups disabled and '
+                                   'comments left enabled, a %%comment inside such an argument is read as ordinary text and '
+                                   'reaches the output' % (k_.arg, unparse(k_.value)),
+                                   construct='%s: %s=%s' % (mod_.relpath, k_.arg, unparse(k_.value)))
+    # ---- R12m: arguments are passed to the parameters they are named after
+    ctx.rule('R12m', 'a positional argument that is a variable named like a parameter of the called function is passed in '
+                     'that parameter\'s position (no two options swapped)', 0)
+    from .. import grules as _gr
+    n_sw = 0
+    for mod_ in sorted(repo.modules.values(), key=lambda m_: m_.name):
+        if not mod_.name.startswith('pylatexenc.latex2text'):
+            continue
+        for call_, callee_, i_, j_, nm_ in _gr.swapped_arguments(mod_):
+            n_sw += 1
+            ctx.refuted('R12m', mod_, call_, '%s passes the variable %s as positional argument %d of %s(), whose parameter %s is '
+                        'at position %d: the options are swapped (keep_comments then drops the comments and keep_inline_math '
+                        'emits them)' % (short(call_, 60), nm_, i_ + 1, callee_, nm_, j_ + 1),
+                        construct='%s: argument %s' % (short(call_, 40), nm_))
+    ctx.holds('R12m', m, None, 'no positional argument named like another parameter of its callee', construct='argument order scan',
+              trivial=True)
 
     return 'other', (
         'Decides the gates through which comments, formula content and discarded constructs can '
